@@ -170,6 +170,14 @@ def run_C12(tier, seed, replay=None, procs=16):
                 continue
             cases.append(dict(problem=p, solver_kw=kw, mode=mode, priority=prio,
                               tracked=[("start", 1), ("end", len(p["tasks"]))], sequences=seqs))
+            if not replay:
+                # another problem is created right after the first answer: the enumeration goes on over THIS problem
+                cases.append(dict(problem=p, solver_kw=kw, mode=mode, priority=prio, later_problem=True,
+                                  tracked=[("start", 1), ("end", len(p["tasks"]))], sequences=seqs[:1]))
+                if mode == "incremental" and p["objs"]:
+                    # the optimisation is cut short (max_iter=1) before the enumeration starts
+                    cases.append(dict(problem=p, solver_kw=dict(kw, max_iter=1), mode=mode, priority=prio, max_iter=1,
+                                      tracked=[("start", 1), ("end", len(p["tasks"]))], sequences=seqs[:1]))
     res = SE.run_cases(cases, V, procs=procs)
     viol = SE.violations(res, "C12", accept_props={"C13"})
     # exhaustion: the history solve, another^(T+2) must end with False
